@@ -143,7 +143,11 @@ def unsafe_guard(ctx):
                         a = adds[0]
                         ext = a[3] if _same(a[2], start) else (a[2] if _same(a[3], start) else None)
                         if ext is not None:
-                            for m in _calls_named(ext, 'Ord::min', 'cmp::min', '::min'):
+                            top = ext
+                            while top[0] == 'cast':
+                                top = top[2]
+                            tops = [top] if (top[0] == 'call' and top[1].endswith(('Ord::min', 'cmp::min', '::min'))) else []
+                            for m in tops:
                                 for arg in m[2]:
                                     for ss in _calls_named(arg, 'saturating_sub'):
                                         ln, S = ss[2][0], ss[2][1]
